@@ -526,7 +526,7 @@ def oracle(plan, hist):
         bad('R5.cleanup_exactly_once', exp_cleanup, obs_cleanup)
     if hist['n_sandboxes'] > 0 and sandbox:
         want_prev = P.previous_phase(ploc, act_mode)
-        got_prev = sorted({t['prev'] for t in trace if t['id'] in ids_cleanup and t['step'] == 'main'})
+        got_prev = sorted({str(t['prev']) for t in trace if t['id'] in ids_cleanup and t['step'] == 'main'})
         if got_prev and got_prev != [want_prev]:
             bad('R5.previous_phase', want_prev, got_prev)
     if hist['leftover']:
